@@ -51,6 +51,9 @@ func genericEntries(g *gWorld, ad *gAdapter, e1, e2, parent ecs.Entity) []gEntry
 	with := ecs.All(g.mapIDs(ad.Types)...)
 	never := ecs.All(g.ids[0]).Without(g.ids[0])
 	mr := generic.NewMap[GR0](w)
+	// ONE filter object over a type the world has not seen: refused while locked, and the same object
+	// must work once the world is unlocked (a failed compilation leaves nothing behind)
+	lateFilter := generic.NewFilter1[gLate2]()
 	relEnt := parent
 	out := []gEntry{
 		{"MapN.New", func() { m.New() }},
@@ -78,7 +81,7 @@ func genericEntries(g *gWorld, ad *gAdapter, e1, e2, parent ecs.Entity) []gEntry
 		}},
 		{"Exchange.ExchangeBatch", func() { generic.NewExchange(w).Adds(generic.T[GX1]()).ExchangeBatch(with) }},
 		{"NewMap of a new type", func() { generic.NewMap[gLate1](w) }},
-		{"Filter.Query registering a new type", func() { q := generic.NewFilter1[gLate2]().Query(w); q.Close() }},
+		{"Filter.Query registering a new type", func() { q := lateFilter.Query(w); q.Close() }},
 	}
 	if relT >= 0 {
 		out = append(out,
